@@ -294,7 +294,7 @@ def run_property(pid, tier, seed, replay=None, spec=None):
             target, secs = DISCOVER[scen]
             corpus = None
             try:
-                corpus = runner.discover(target, secs[tier], seed)
+                corpus = runner.discover(target, secs[tier], seed, max_len=48 if tier == "quick" else 300)
             except ToolError as e:
                 if scen in ("discovered", "svgdiscovered"):       # scenarios that consist of discovered inputs only
                     if required:
